@@ -277,4 +277,86 @@ theorem C17_unfold_boolean_same_target (t f : String) (o : Opt) (out : ActOut) (
                 exact .inr ⟨a0, rest, _, _, hasg, rfl, rfl, rfl, rfl, rfl, rfl, rfl⟩
         · simp at h
 
+
+/-- `struct_fields_as_options`: either the option comes back unchanged, or every option produced has
+    exactly one assignment, and it targets a field *below the original first target* -/
+theorem C17_struct_fields_as_options_same_targets (fields : Option (List String)) (ss : Schemas) (o : Opt)
+    (out : ActOut) (h : structFieldsAsOptionsAction fields ss o = .ok out) :
+    out.opts = [o] ∨
+    ∃ a0 rest, o.assignments = a0 :: rest ∧
+      ∀ o' ∈ out.opts, ∃ a f, o'.name = f.name ∧ o'.assignments = [a] ∧ a.path = a0.path ++ pathFromStructField f := by
+  unfold structFieldsAsOptionsAction at h
+  split at h
+  · simp [unchanged] at h; subst h; exact .inl rfl
+  · split at h
+    · split at h
+      · simp [unchanged] at h; subst h; exact .inl rfl
+      · split at h
+        · split at h
+          · simp at h
+          · rename_i a0 rest hasg
+            split at h
+            · rename_i os hos
+              simp at h; subst h
+              refine .inr ⟨a0, rest, hasg, fun o' ho' => ?_⟩
+              obtain ⟨a, f, _, h1, h2, h3⟩ := sfOptsLoop_spec fields a0.path _ os hos o' ho'
+              exact ⟨a, f, h1, h2, h3⟩
+            · simp at h
+            · simp at h
+        · simp at h
+        · simp at h
+    · simp at h
+    · simp at h
+
+/-- `struct_fields_as_arguments`: either the option comes back unchanged, or one option comes back
+    under the same name, and each of its assignments either targets the original first target or a
+    field below it, or is one of the original's other assignments -/
+theorem C17_struct_fields_as_arguments_same_targets (fields : Option (List String)) (ss : Schemas) (o : Opt)
+    (out : ActOut) (h : structFieldsAsArgumentsAction fields ss o = .ok out) :
+    out.opts = [o] ∨
+    ∃ a0 rest o', o.assignments = a0 :: rest ∧ out.opts = [o'] ∧ o'.name = o.name ∧
+      ∀ a ∈ o'.assignments, Path.hasPrefix a0.path a.path ∨ a ∈ rest := by
+  unfold structFieldsAsArgumentsAction at h
+  cases hargs : o.args with
+  | nil => simp [hargs, unchanged] at h; subst h; exact .inl rfl
+  | cons arg0 oldArgsRest =>
+    simp only [hargs] at h
+    cases hfa : firstArgStruct ss arg0.ty with
+    | err e => simp [hfa] at h
+    | panic s => simp [hfa] at h
+    | ok t =>
+      simp only [hfa] at h
+      by_cases hk : (!kindIs t "struct") = true
+      · simp [hk, unchanged] at h; subst h; exact .inl rfl
+      · simp only [hk] at h
+        cases hasg : o.assignments with
+        | nil => simp [hasg] at h
+        | cons a0 rest =>
+          simp only [hasg] at h
+          cases hfs : asStructFields t with
+          | err e => simp [hfs] at h
+          | panic s => simp [hfs] at h
+          | ok fs =>
+            simp only [hfs] at h
+            obtain ⟨o', h1, h2, h3⟩ := sfArgsBuild_targets fields o oldArgsRest a0 rest fs out h
+            exact .inr ⟨a0, rest, o', rfl, h1, h2, h3⟩
+
+/-- `disjunction_as_options`: every option produced assigns exactly the targets the original assigned
+    (or the option comes back unchanged) -/
+theorem C17_disjunction_as_options_same_target (idx : Int) (ss : Schemas) (o : Opt) (out : ActOut)
+    (h : disjunctionAsOptionsAction idx ss o = .ok out) :
+    ∀ o' ∈ out.opts, o'.assignments.map (·.path) = o.assignments.map (·.path) := by
+  unfold disjunctionAsOptionsAction at h
+  by_cases he : o.args.isEmpty = true
+  · simp [he, unchanged] at h; subst h; simp
+  · simp only [he] at h
+    by_cases hneg : idx < 0
+    · simp [hneg] at h
+    · simp only [hneg] at h
+      cases ht : o.args[idx.toNat]? with
+      | none => simp [ht] at h
+      | some target =>
+        simp only [ht] at h
+        exact disjunctionOnTarget_paths ss o idx.toNat target out (by simpa using h)
+
 end Cog.Builder
